@@ -134,6 +134,10 @@ pub fn execute_hsrv(plan: &Plan) -> Outcome {
                 (5, 2) => ServerOpts { wrong_request_salt: true, ..Default::default() },
                 (5, 3) => ServerOpts { vmess_wrong_auth: true, ..Default::default() },
                 (5, 4) => ServerOpts { vmess_wrong_keys: true, ..Default::default() },
+                (5, 5) if plan.config.proto == Proto::Vmess => match g.below(3) {
+                    0 => ServerOpts { vmess_resp_header_raw: Some(g.pick(&[vec![], vec![7u8], vec![0u8; 3], vec![0xffu8; 300]]).clone()), ..Default::default() },
+                    _ => ServerOpts { vmess_bad_chunk: Some(g.below(6) as u8), ..Default::default() },
+                },
                 (7, _) => ServerOpts { max_chunk: Some(*g.pick(&[1usize, 2, 0x3fff, 0xffff])), ..Default::default() },
                 _ => ServerOpts::default(),
             };
@@ -243,7 +247,7 @@ pub fn execute_hsrv(plan: &Plan) -> Outcome {
                 } else {
                     refimpl::ss2022::udp_open_chacha(&cipher, &c.psk, &pkt, false).ok().map(|(b, _)| (b.session_id, None))
                 };
-                let kind = if control { 99 } else { i % 6 };
+                let kind = if control { 99 } else { i % 7 };
                 let from_addr = match kind {
                     3 => g.pick(&[Addr::Name(vec![0xff, 0xfe, 0xc0], 53), Addr::Name(vec![], 53), Addr::Name(vec![b'a'; 255], 53)]).clone(),
                     _ => Addr::V4(T_IP, T_PORT),
@@ -285,6 +289,33 @@ pub fn execute_hsrv(plan: &Plan) -> Outcome {
                     3 => ("malformed-source-address", vec![valid.clone()]),
                     4 => ("duplicated", vec![valid.clone(), valid.clone(), valid.clone()]),
                     5 => ("typed-as-request", vec![build(&mut g, server_pid, 0)]),
+                    6 if is_2022(&cipher) => {
+                        // well authenticated, wrong inside: padding length beyond the datagram, nothing after the fixed part, ...
+                        let (csid, user) = ids.unwrap_or((0, None));
+                        let mut body = vec![1u8];
+                        body.extend_from_slice(&unix_now().to_be_bytes());
+                        body.extend_from_slice(&csid.to_be_bytes());
+                        match g.below(5) {
+                            0 => body.extend_from_slice(&[0xff, 0xff, 1, 2, 3]),
+                            1 => body.extend_from_slice(&[0, 9, 1]),
+                            2 => body.extend_from_slice(&[0, 0]),
+                            3 => body.extend_from_slice(&[0, 0, 3, 200, b'a']),
+                            _ => body.extend_from_slice(&[0, 2, 0, 0, 1, 127]),
+                        }
+                        let w = if refimpl::ss2022::is_aes(&cipher) {
+                            let key = match user {
+                                Some(u) => c.user_keys[u].clone(),
+                                None => c.psk.clone(),
+                            };
+                            refimpl::ss2022::udp_packet_aes_raw(&cipher, &[key], server_session, server_pid, &body)
+                        } else {
+                            let mut n24 = [0u8; 24];
+                            g.fill(&mut n24);
+                            refimpl::ss2022::udp_packet_chacha_raw(&cipher, &c.psk, &n24, server_session, server_pid, &body)
+                        };
+                        ("authenticated-malformed-body", vec![w])
+                    }
+                    6 => ("random", vec![g.bytes(33)]),
                     _ => ("control", vec![valid.clone()]),
                 };
                 bump(&format!("dgram_reply_{name}"));
